@@ -20,7 +20,8 @@ CONSTANTS Txs,          \* transactions
 \* a transaction's request as its user agent sends it: the UA sits at src, announces sentby, may ask for rport,
 \* may carry a spoofed received; deeper Via entries (an upstream proxy) stay beneath
 Shapes == [ src : {[ip |-> "ua1", port |-> 40001], [ip |-> "ua2", port |-> 40002]},
-            sentby : {[host |-> "ua1", port |-> 5062], [host |-> "name.example", port |-> 0]},
+            sentby : {[host |-> "ua1", port |-> 5062], [host |-> "name.example", port |-> 0],
+                      [host |-> "self", port |-> 5062]},     \* "self": the UA's own address as a literal - only the PORT differs from the true source
             rport : {"none", "empty", "spoofed"}, spoofrecv : BOOLEAN, deep : BOOLEAN ]
 
 VARIABLES shape,      \* shape[t] \in Shapes
@@ -30,7 +31,8 @@ VARIABLES shape,      \* shape[t] \in Shapes
 
 vars == <<shape, st, atBackend, deliv>>
 
-Top(sh) == [host |-> sh.sentby.host, port |-> sh.sentby.port,
+SentHost(sh) == IF sh.sentby.host = "self" THEN sh.src.ip ELSE sh.sentby.host
+Top(sh) == [host |-> SentHost(sh), port |-> sh.sentby.port,
             received |-> IF sh.spoofrecv THEN "6.6.6.6" ELSE "",
             rport |-> CASE sh.rport = "none" -> [k |-> "absent", v |-> 0] [] sh.rport = "empty" -> [k |-> "empty", v |-> 0] [] OTHER -> [k |-> "num", v |-> 9]]
 NoRport == [k |-> "absent", v |-> 0]
@@ -66,7 +68,7 @@ Spec == Init /\ [][Next]_vars
 \* where the response must arrive, from the property text
 Expected(sh) == IF Recv THEN [ip |-> sh.src.ip, port |-> IF sh.rport = "none" THEN (IF sh.sentby.port = 0 THEN 5060 ELSE sh.sentby.port) ELSE sh.src.port]
                 ELSE IF sh.spoofrecv THEN [ip |-> "6.6.6.6", port |-> IF sh.rport = "spoofed" THEN 9 ELSE IF sh.sentby.port = 0 THEN 5060 ELSE sh.sentby.port]
-                ELSE [ip |-> sh.sentby.host, port |-> IF sh.sentby.port = 0 THEN 5060 ELSE sh.sentby.port]
+                ELSE [ip |-> SentHost(sh), port |-> IF sh.sentby.port = 0 THEN 5060 ELSE sh.sentby.port]
 \* ... carrying the stack that hop sent; the proxy may only have written received / rport on the sender's entry
 SameButStamp(a, b) == a.host = b.host /\ a.port = b.port
 ReturnPath == \A d \in deliv :
